@@ -36,6 +36,10 @@ pub fn meta(prop: &str) -> Option<Meta> {
         "C03" => m("exploration", "every ingestion opportunity of enumerated small trees and random histories is judged by the stability rule in both directions; distinct = fingerprint of (tree shape with difficulties, threshold, network, advanced or not)", 35.0, 600.0),
         "C04" => m("exploration", "every (state, address, c) with c in 1..=best-chain length+2; distinct = fingerprint of (tree shape, threshold, network, c, address kind, answer size)", 35.0, 600.0),
         "C05" => m("exploration", "get_balance vs sum over all pages of get_utxos for every (state, address, c in {none, 0..len+2, u32::MAX}) incl. malformed and foreign-network addresses; non-trivial if either side is non-zero or both are errors; distinct = fingerprint of (tree shape, threshold, network, c, address kind, sum)", 35.0, 600.0),
+        "C15" => m("exploration", "fee-paying histories (legacy and witness sizes, forks with different transactions, reorgs, empty blocks, eager/lazy, upgrades), queried after every step; an answer is non-trivial if non-empty; distinct = distinct 101-value answers checked against own nearest-rank over the admissible populations", 35.0, 600.0),
+        "C20" => m("exploration", "bookkeeping snapshot (hook) recomputed from the model's live tree after every step of fork/discard/shared-transaction histories with upgrades; distinct = fingerprint of (tree shape, threshold, network, forks, cached tx outs)", 35.0, 600.0),
+        "C06" => m("exploration", "page chains (page sizes 1..7 through the hook; 1000 in the thorough tier) started on forked histories with 0-2 events between consecutive page requests drawn from {best chain grows, competing fork grows, ancestors stabilise, the chain of the first tip is discarded, upgrade}, plus forged and random page blobs; distinct = fingerprint of (event sequence, pages, elements, tree shape)", 35.0, 600.0),
+        "C08" => m("fault_enumeration", "scripted histories replayed under per-round instruction budgets (random, pause-everywhere, and for a designed small block every subset of pause positions) against an unsliced twin; full user-visible snapshot compared at every pause point with the one taken before the ingestion began; distinct = distinct (history, pause set) pairs", 45.0, 900.0),
         "C07" => m("exploration", "all (start,end) pairs up to tip+2 on every state of histories (sampled when tip > 40), also at pause points of sliced ingestions and after upgrades; distinct = (class, start, last, tip, stable height, paused)", 35.0, 600.0),
         _ => None,
     }
@@ -52,7 +56,15 @@ fn tier_scale(ctx: &Ctx, quick: u64, thorough: u64) -> u64 {
 pub fn run(ctx: &mut Ctx) {
     let prop = ctx.prop.clone();
     match prop.as_str() {
-        "C01" | "C02" | "C03" | "C04" | "C05" | "C07" => lane_history(ctx),
+        "C01" | "C02" | "C03" | "C04" | "C05" | "C07" | "C15" | "C20" => lane_history(ctx),
+        "C06" => crate::c06::lane_pages(ctx),
+        "C08" => {
+            let b = ctx.budget_s;
+            ctx.budget_s = b * 0.6;
+            crate::c08::lane_slice(ctx);
+            ctx.budget_s = b;
+            crate::c08::lane_slice_exhaustive(ctx);
+        }
         _ => {}
     }
 }
@@ -118,6 +130,11 @@ fn lane_history(ctx: &mut Ctx) {
         };
         let mut h = Hist::new(cfg, rng);
         h.report_c03 = ctx.prop == "C03";
+        if ctx.prop == "C15" {
+            h.fee = Some(crate::fees::FeeTracker::default());
+            h.fee_boundary();
+        }
+        let upgrade_pct = if ctx.prop == "C15" || ctx.prop == "C20" { 8 } else { 2 };
         for _ in 0..steps {
             if !h.step(ctx) {
                 break;
@@ -129,13 +146,39 @@ fn lane_history(ctx: &mut Ctx) {
                 "C04" => mon::check_c04(&mut h, ctx, limit, 4),
                 "C05" => mon::check_c05(&mut h, ctx, limit, &[], 3),
                 "C07" => mon::check_c07(&mut h, ctx, false, 40),
+                "C15" => {
+                    if let Some(mut f) = h.fee.take() {
+                        f.check(&h, ctx);
+                        // a second request for the same tip must hit the cache
+                        if h.rng.chance(1, 3) {
+                            f.check(&h, ctx);
+                        }
+                        h.fee = Some(f);
+                    }
+                }
+                "C20" => mon::check_c20(&mut h, ctx),
                 _ => {}
+            }
+            if h.rng.chance(upgrade_pct, 100) {
+                if !h.upgrade(ctx) {
+                    break;
+                }
+                if ctx.prop == "C20" {
+                    mon::check_c20(&mut h, ctx);
+                }
             }
             if !ctx.time_left() {
                 break;
             }
         }
         ctx.cov.add("reorgs", h.reorgs);
+        ctx.cov.add("upgrades", h.upgrades);
+        if let Some(f) = &h.fee {
+            ctx.cov.add("c15_tip_changes", f.tip_changes);
+            ctx.cov.add("c15_populations_evaluated", f.populations_seen);
+            ctx.cov.max("max_fee_population", f.max_population as u64);
+            ctx.cov.add("c15_ambiguous_cut_inside_block", f.ambiguous_cut);
+        }
         ctx.cov.max("max_unstable_blocks", h.model.live_count() as u64);
         if let Some(d) = &h.desync {
             if !d.starts_with("C03") || ctx.prop == "C03" {
